@@ -273,7 +273,9 @@ pub fn set_preference(name: String, value: String) -> Result<()> {
             }
         }
         let lower_case_value = value.to_lowercase();
-        if lower_case_value == "true" || lower_case_value == "false" {
+        // only a preference that has a boolean value can be given one (otherwise an unknown name would be accepted,
+        //  and a number- or string-valued preference would end up with a value the code using it can't deal with)
+        if (lower_case_value == "true" || lower_case_value == "false") && pref_manager.is_boolean_pref(&name) {
             pref_manager.set_api_boolean_pref(&name, value.to_lowercase() == "true");
         } else {
             match name.as_str() {
